@@ -84,9 +84,9 @@ func newObsClient(dir, sidecar string) *obsClient {
 }
 
 func (c *obsClient) LTXFiles(ctx context.Context, level int, seek ltx.TXID, useMetadata bool) (ltx.FileIterator, error) {
-	if level == 0 && c.gating {
-		// A level-0 listing while the sidecar exists is the first action of a poll
-		// (the initial restore plans before the sidecar exists; resume does not plan).
+	if level == 0 && seek > 0 && c.gating {
+		// A level-0 listing with a seek position while the sidecar exists is the first
+		// action of a poll (the restore plan and the resume validation list with seek 0).
 		if _, err := os.Stat(c.sidecar); err == nil {
 			select {
 			case c.arrive <- struct{}{}:
@@ -249,7 +249,7 @@ func errClass(err error) int {
 		return 1
 	case strings.Contains(m, "replica history has been pruned"):
 		return 2
-	case strings.Contains(m, "ahead of latest snapshot"):
+	case strings.Contains(m, "ahead of latest snapshot"), strings.Contains(m, "is ahead of the replica"):
 		return 3
 	case strings.Contains(m, "PANIC"):
 		return 8
@@ -670,7 +670,11 @@ func runHistory(seed int64, idx int, work string, rp *report) error {
 				if n := len(ls[9]); n > 0 {
 					smax = ls[9][n-1].max
 				}
-				rp.extra["resume_refused_ahead_of_snapshot"]++
+				rp.extra["resume_refused_class3"]++
+				if lastSide > maxTXID(ls, 8) && lastSide > smax {
+					// cannot happen for a follower that only applied replica files
+					rp.extra["resume_refused_beyond_replica"]++
+				}
 				rp.violate("C16/resume-refused-sidecar-ahead-of-latest-snapshot",
 					fmt.Sprintf("follower stopped with sidecar TXID %d (content = restore of %d); latest level-9 snapshot is 1..%d; "+
 						"restarting Restore(Follow) fails with %q instead of resuming", lastSide, lastSide, smax, ses2str(cl)), rep())
@@ -684,6 +688,9 @@ func runHistory(seed int64, idx int, work string, rp *report) error {
 		}
 		if resume {
 			rp.extra["resumes"]++
+			if n := len(ls[9]); n > 0 && lastSide > ls[9][n-1].max {
+				rp.extra["resumes_ahead_of_latest_snapshot"]++
+			}
 		} else {
 			rp.extra["fresh_restores"]++
 		}
@@ -963,7 +970,12 @@ func runRace(seed int64, idx int, spec raceSpec, work string, rp *report) error 
 	ses = startSession(p.repDir, out, nil)
 	if !ses.await() {
 		cl := errClass(ses.endErr)
-		return fmt.Errorf("race: follower did not resume: class %d", cl)
+		sig := fmt.Sprintf("C16/follower-start-failed-class-%d", cl)
+		if cl == 3 {
+			sig = "C16/resume-refused-sidecar-ahead-of-latest-snapshot"
+		}
+		rp.violate(sig, fmt.Sprintf("%s: the lagging follower (sidecar %d) could not be restarted: %s", class, readSidecar(out), ses2str(cl)), rpl)
+		return nil
 	}
 	defer func() { _ = ses.stop() }()
 	t0 := readSidecar(out)
@@ -1116,6 +1128,194 @@ func runRace(seed int64, idx int, spec raceSpec, work string, rp *report) error 
 }
 
 // ---------------------------------------------------------------------------
+// resume generator: a real follower stopped with its sidecar AHEAD of the newest
+// level-9 snapshot, at several distances, restarted against a replica where
+// (l0) level 0 is intact, (trimmed) level 0 was compacted away so fillFollowGap
+// is needed, (atmax) nothing new exists (sidecar = replica maximum), (beyond) the
+// sidecar claims more than any level holds - the only case that must be refused.
+
+type resumeSpec struct {
+	dist  int
+	shape string
+}
+
+func resumeSpecs() []resumeSpec {
+	var out []resumeSpec
+	for _, d := range []int{1, 3, 6} {
+		for _, sh := range []string{"l0", "trimmed", "atmax", "beyond"} {
+			out = append(out, resumeSpec{d, sh})
+		}
+	}
+	return out
+}
+
+func runResume(seed int64, idx int, spec resumeSpec, work string, rp *report) error {
+	r := NewRand(seed*257 + int64(idx)*13 + 5)
+	dir := filepath.Join(work, fmt.Sprintf("resume%d", idx))
+	_ = os.RemoveAll(dir)
+	if err := os.MkdirAll(dir, 0o755); err != nil {
+		return err
+	}
+	defer os.RemoveAll(dir)
+	ps := []int{1024, 4096, 512}[idx%3]
+	p, err := openPrimary(dir, ps, time.Hour)
+	if err != nil {
+		return err
+	}
+	defer p.close()
+	ctx := context.Background()
+	class := fmt.Sprintf("resume/%s/dist%d", spec.shape, spec.dist)
+	rpl := map[string]any{"kind": "resume", "seed": seed, "idx": idx, "shape": spec.shape, "dist": spec.dist,
+		"how": fmt.Sprintf("h_follow follow -out <dir> -resume-seed %d -resume-idx %d", seed, idx)}
+	step := func(n int) error {
+		for i := 0; i < n; i++ {
+			if _, err := p.appOp(r); err != nil {
+				return err
+			}
+			if err := p.sync(); err != nil {
+				return err
+			}
+		}
+		return nil
+	}
+	if err := step(2); err != nil {
+		return err
+	}
+	if _, err := p.db.Snapshot(ctx); err != nil {
+		return fmt.Errorf("resume: snapshot: %w", err)
+	}
+	if err := step(spec.dist); err != nil {
+		return err
+	}
+	out := filepath.Join(dir, "follower.db")
+	check := func(when string) {
+		side := readSidecar(out)
+		got, err := os.ReadFile(out)
+		if err != nil {
+			return
+		}
+		want, err := p.ref(side)
+		if err != nil {
+			rp.extra["ref_unavailable"]++
+			return
+		}
+		rp.extra["content_comparisons"]++
+		if d := diffDB(got, want, ps); d != "" {
+			rp.violate("C16/follower-differs-from-restore-of-sidecar-txid", fmt.Sprintf("%s, %s: follower content != Restore(TXID=%d): %s", class, when, side, d), rpl)
+		}
+	}
+	settle := func(ses *session) bool {
+		for i := 0; i < 60; i++ {
+			ls := listAll(p.repDir)
+			t := readSidecar(out)
+			opens, alive := ses.poll()
+			if !alive {
+				rp.violate("C16/follower-died", fmt.Sprintf("%s: Restore(Follow) returned: class %d", class, errClass(ses.endErr)), rpl)
+				return false
+			}
+			t2 := readSidecar(out)
+			rp.emitPoll(ls, nil, t, opens, ses.oc.lastOutc, t2, class, true)
+			check(fmt.Sprintf("after poll from %d", t))
+			if t2 == t {
+				break
+			}
+		}
+		latest := maxTXID(listAll(p.repDir), 8)
+		if tEnd := readSidecar(out); tEnd != latest {
+			rp.violate("C16/follower-did-not-converge", fmt.Sprintf("%s: replica static, latest %d, follower stopped at %d", class, latest, tEnd), rpl)
+			return false
+		}
+		return true
+	}
+	ses := startSession(p.repDir, out, nil)
+	if !ses.await() {
+		return fmt.Errorf("resume: follower did not start: %v", ses.endErr)
+	}
+	if !settle(ses) {
+		_ = ses.stop()
+		return nil
+	}
+	if err := ses.stop(); err != nil {
+		return fmt.Errorf("resume: stop: %v", err)
+	}
+	side := readSidecar(out)
+	switch spec.shape {
+	case "l0":
+		if err := step(3); err != nil {
+			return err
+		}
+	case "trimmed":
+		if err := step(3); err != nil {
+			return err
+		}
+		p.db.L0Retention = time.Nanosecond
+		if _, err := p.db.Compact(ctx, 1); err != nil {
+			return fmt.Errorf("resume: compact1: %w", err)
+		}
+		if err := step(1); err != nil {
+			return err
+		}
+	case "atmax":
+	case "beyond":
+		side = maxTXID(listAll(p.repDir), 9) + 1 + uint64(r.Intn(3))
+		if err := litestream.WriteTXIDFile(out, ltx.TXID(side)); err != nil {
+			return err
+		}
+	}
+	ls := listAll(p.repDir)
+	snaps := make(SxList, 0)
+	var smax uint64
+	for _, f := range ls[9] {
+		snaps = append(snaps, L(U(f.min), U(f.max)))
+		smax = f.max
+	}
+	ses = startSession(p.repDir, out, nil)
+	alive := ses.await()
+	decision := 0
+	if !alive {
+		decision = errClass(ses.endErr)
+	}
+	rp.cw.Add("follow_resume", L(snaps, U(side), sxListing(ls, nil)), I(int64(decision)), class, true)
+	rp.extra["resume_real_scenarios"]++
+	if spec.shape == "beyond" {
+		if alive {
+			_ = ses.stop()
+			rp.violate("C16/resume-accepted-sidecar-beyond-replica",
+				fmt.Sprintf("%s: sidecar %d is beyond every level of the replica (max %d) but Restore(Follow) resumes", class, side, maxTXID(ls, 9)), rpl)
+		} else if decision != 3 {
+			rp.violate(fmt.Sprintf("C16/follower-start-failed-class-%d", decision), fmt.Sprintf("%s: unexpected refusal class %d", class, decision), rpl)
+		}
+		return nil
+	}
+	if !alive {
+		sig := fmt.Sprintf("C16/follower-start-failed-class-%d", decision)
+		if decision == 3 {
+			sig = "C16/resume-refused-sidecar-ahead-of-latest-snapshot"
+		}
+		rp.violate(sig, fmt.Sprintf("%s: follower stopped cleanly with sidecar TXID %d (content = restore of %d), latest level-9 snapshot ends at %d, "+
+			"levels 0..8 reach %d; restarting Restore(Follow) fails with %q instead of resuming", class, side, side, smax, maxTXID(ls, 8), ses2str(decision)), rpl)
+		return nil
+	}
+	defer func() { _ = ses.stop() }()
+	rp.extra["resumes"]++
+	rp.extra["resumes_ahead_of_latest_snapshot"]++
+	check("after resume")
+	if !settle(ses) {
+		return nil
+	}
+	tmp := filepath.Join(dir, "latest.db")
+	if err := restoreTo(p.repDir, 0, tmp); err == nil {
+		want, _ := os.ReadFile(tmp)
+		got, _ := os.ReadFile(out)
+		rp.extra["converged_comparisons"]++
+		if d := diffDB(got, want, ps); d != "" {
+			rp.violate("C16/converged-follower-differs-from-latest-restore", fmt.Sprintf("%s: follower != Restore(latest): %s", class, d), rpl)
+		}
+	}
+	return nil
+}
+
+// ---------------------------------------------------------------------------
 // syn generator: arbitrary small listings with tiny real LTX files
 
 const synPS = 512
@@ -1197,7 +1397,7 @@ func genSyn(r *rand.Rand) synCase {
 			}
 		}
 	}
-	if r.Intn(3) == 0 { // level-9 snapshots, only read by the resume validation
+	if r.Intn(2) == 0 { // level-9 snapshots, only read by the resume validation
 		n := 1 + r.Intn(2)
 		for i := 0; i < n; i++ {
 			a := uint64(1)
@@ -1205,6 +1405,40 @@ func genSyn(r *rand.Rand) synCase {
 				a = 1 + uint64(r.Intn(4))
 			}
 			add(9, finfo{a, a + uint64(r.Intn(6))})
+		}
+	}
+	if n9 := len(sc.levels[9]); n9 > 0 && r.Intn(3) > 0 {
+		// place the sidecar relative to the newest snapshot and to the replica maximum
+		last := sc.levels[9][0]
+		for _, f := range sc.levels[9] {
+			if f.min > last.min || (f.min == last.min && f.max > last.max) {
+				last = f
+			}
+		}
+		rm := maxTXID(sc.levels, 8)
+		switch r.Intn(6) {
+		case 0:
+			sc.t = last.max
+		case 1:
+			sc.t = last.max + 1
+		case 2:
+			sc.t = last.max + 2 + uint64(r.Intn(3))
+		case 3:
+			if rm > 0 {
+				sc.t = rm
+			}
+		case 4:
+			sc.t = rm + 1
+			if last.max+1 > sc.t {
+				sc.t = last.max + 1
+			}
+		default:
+			if rm > last.max+1 {
+				sc.t = last.max + 1 + uint64(r.Intn(int(rm-last.max)))
+			}
+		}
+		if sc.t == 0 {
+			sc.t = 1
 		}
 	}
 	for l := range sc.levels {
@@ -1267,7 +1501,31 @@ func runSyn(sc synCase, work string, rp *report, class string) error {
 	if !alive {
 		decision = errClass(ses.endErr)
 	}
-	rp.cw.Add("follow_resume", L(snaps, U(sc.t)), I(int64(decision)), class+"/resume", decision != 0 || len(snaps) > 0)
+	rp.cw.Add("follow_resume", L(snaps, U(sc.t), sxListing(sc.levels, nil)), I(int64(decision)), class+"/resume", decision != 0 || len(snaps) > 0)
+	if len(sc.levels[9]) > 0 && sc.t != 0 {
+		last := sc.levels[9][len(sc.levels[9])-1]
+		rm := maxTXID(sc.levels, 8)
+		switch {
+		case sc.t < last.min:
+			rp.extra["resume_syn_behind_snapshot"]++
+		case sc.t <= last.max:
+			rp.extra["resume_syn_within_snapshot"]++
+		case sc.t <= rm:
+			rp.extra["resume_syn_ahead_of_snapshot_within_replica"]++
+			if decision != 0 {
+				rp.violate("C16/resume-refused-sidecar-ahead-of-latest-snapshot",
+					fmt.Sprintf("synthetic listing: sidecar %d, latest snapshot %d..%d, levels 0..8 reach %d: Restore(Follow) refuses to resume (class %d)", sc.t, last.min, last.max, rm, decision),
+					map[string]any{"case_lines": []string{"follow_resume\t" + SxString(L(snaps, U(sc.t), sxListing(sc.levels, nil))) + "\t0"}})
+			}
+		default:
+			rp.extra["resume_syn_beyond_replica"]++
+			if decision == 0 {
+				rp.violate("C16/resume-accepted-sidecar-beyond-replica",
+					fmt.Sprintf("synthetic listing: sidecar %d is beyond the snapshot (%d) and every level (%d) but Restore(Follow) resumes", sc.t, last.max, rm),
+					map[string]any{"case_lines": []string{"follow_resume\t" + SxString(L(snaps, U(sc.t), sxListing(sc.levels, nil))) + "\t3"}})
+			}
+		}
+	}
 	if !alive {
 		return nil
 	}
@@ -1430,7 +1688,14 @@ func buildKillScenarios(seed int64, work string, self string) ([]killScenario, f
 		}
 		return nil
 	}
-	if err := step(4); err != nil {
+	if err := step(2); err != nil {
+		return nil, cleanup, err
+	}
+	// a level-9 snapshot older than every sidecar of the sweep: each restart resumes AHEAD of the newest snapshot
+	if _, err := p.db.Snapshot(context.Background()); err != nil {
+		return nil, cleanup, fmt.Errorf("snapshot: %w", err)
+	}
+	if err := step(2); err != nil {
 		return nil, cleanup, err
 	}
 	t0 := p.pos()
@@ -1582,7 +1847,15 @@ func runKillSweep(seed int64, work string, rp *report, budget int, all bool) err
 		trace := filepath.Join(kdir, "trace.txt")
 		code, _, o := runChild(self, []string{"-f", "-o", trace, "-e", "trace=" + injectSet}, sc.repDir, out, sc.target)
 		if code != 0 {
-			return fmt.Errorf("kill scenario %s: undisturbed traced run exit %d: %s", sc.name, code, o)
+			rpl := map[string]any{"kind": "kill", "seed": seed, "scenario": sc.name, "k": 0}
+			if strings.Contains(o, "CLASS 3") {
+				rp.violate("C16/resume-refused-sidecar-ahead-of-latest-snapshot",
+					fmt.Sprintf("kill scenario %s, undisturbed run: follower files at sidecar TXID %d (ahead of the level-9 snapshot taken earlier), "+
+						"Restore(Follow) refuses to resume: %s", sc.name, sc.baseT, strings.TrimSpace(o)), rpl)
+			} else {
+				rp.violate("C16/follower-child-failed", fmt.Sprintf("kill scenario %s: undisturbed traced run exit %d: %s", sc.name, code, strings.TrimSpace(o)), rpl)
+			}
+			continue
 		}
 		tb, _ := os.ReadFile(trace)
 		_ = os.WriteFile(filepath.Join(filepath.Dir(work), "trace_"+sc.name+".txt"), tb, 0o644)
@@ -1635,6 +1908,22 @@ func runKillSweep(seed int64, work string, rp *report, budget int, all bool) err
 			for _, k := range []int{1, total} {
 				if k >= 1 && k <= total {
 					seen[k] = true
+				}
+			}
+			if sc.baseDir == "" {
+				// initial restore: every syscall from the fsync of <out>.tmp on (sidecar
+				// publish, database publish, directory syncs) is a kill point
+				from := 0
+				for _, pt := range points {
+					if pt.name == "fsync" {
+						from = pt.seq
+						break
+					}
+				}
+				for _, pt := range points {
+					if from > 0 && pt.seq >= from {
+						seen[pt.seq] = true
+					}
 				}
 			}
 			for n0 := len(seen); len(seen) < n0+budget && len(seen) < total; {
@@ -1738,7 +2027,9 @@ func main() {
 	histIdx := fl.Int("hist-idx", -1, "re-run one history: index")
 	raceSeed := fl.Int64("race-seed", 0, "re-run one list/open race: seed")
 	raceIdx := fl.Int("race-idx", -1, "re-run one list/open race: index")
-	races := fl.Int("races", 1, "0 = skip the list/open race enumeration")
+	races := fl.Int("races", 1, "0 = skip the list/open race and resume-distance enumerations")
+	resumeSeed := fl.Int64("resume-seed", 0, "re-run one resume-distance scenario: seed")
+	resumeIdx := fl.Int("resume-idx", -1, "re-run one resume-distance scenario: index")
 	child := fl.Bool("child", false, "internal: follower child process")
 	crep := fl.String("replica", "", "child: replica dir")
 	cdb := fl.String("db", "", "child: follower database path")
@@ -1752,6 +2043,9 @@ func main() {
 	}
 	if *raceIdx >= 0 {
 		*histSeed, *histIdx = *raceSeed, -2-*raceIdx
+	}
+	if *resumeIdx >= 0 {
+		*histSeed, *histIdx = *resumeSeed, -1000-*resumeIdx
 	}
 	if *races == 0 {
 		skipRaces = true
@@ -1829,6 +2123,13 @@ func run(out string, n, nsyn int, seed int64, kills int, replay string, histSeed
 			return err
 		}
 		return finish()
+	case histIdx <= -1000:
+		i := -1000 - histIdx
+		sp := resumeSpecs()
+		if err := runResume(histSeed, i, sp[i%len(sp)], work, rp); err != nil {
+			return err
+		}
+		return finish()
 	case histIdx <= -2:
 		i := -2 - histIdx
 		sp := raceSpecs()
@@ -1852,6 +2153,11 @@ func run(out string, n, nsyn int, seed int64, kills int, replay string, histSeed
 		}
 	}
 	if !skipRaces {
+		for i, sp := range resumeSpecs() {
+			if err := runResume(seed, i, sp, work, rp); err != nil {
+				return fmt.Errorf("resume %d (%+v): %w", i, sp, err)
+			}
+		}
 		for i, sp := range raceSpecs() {
 			if err := runRace(seed, i, sp, work, rp); err != nil {
 				return fmt.Errorf("race %d (%+v): %w", i, sp, err)
